@@ -7,6 +7,7 @@ import (
 	"encoding/json"
 	"encoding/xml"
 	"fmt"
+	"html/template"
 	mrand "math/rand/v2"
 	"net/http"
 	"net/url"
@@ -51,6 +52,9 @@ type schedKnobs struct {
 	// AttrServices (server mode): the AttributeConsumingService elements in the metadata of every registered provider, in document
 	// order (nil: one service asking for six attributes; a pointer to an empty list: none at all)
 	AttrServices *[]attrService `json:"attribute_services,omitempty"`
+	// CustomLoginForm (server mode): the application supplies its own login form (samlidp.Options.LoginFormTemplate): one template
+	// value that every request without a session renders
+	CustomLoginForm bool `json:"custom_login_form_template,omitempty"`
 }
 
 // attrService is one AttributeConsumingService element of a provider's metadata.
@@ -184,6 +188,7 @@ func genSched(g *Rng, tier string) *Plan {
 		}
 		k.AttrServices = &svcs
 	}
+	k.CustomLoginForm = k.Mode == "server" && g.Bool(0.3)
 	p.Knobs = mustJSON(k)
 	n := 2 + g.PickW(4, 3, 2)
 	for i := 0; i < n; i++ {
@@ -1013,7 +1018,16 @@ func setupServerMode(p *Plan, s *sched, res *Result) func() {
 	cost4Once.Do(func() { cost4Hash, _ = bcrypt.GenerateFromPassword([]byte("pw"), bcrypt.MinCost) })
 	inner := &samlidp.MemoryStore{}
 	store := &schedStore{inner: inner, s: s}
-	srv, err := samlidp.New(samlidp.Options{URL: mustURL("https://idp.example.com"), Key: rsaKeys[0].Key, Certificate: rsaKeys[0].Cert, Store: store, Logger: nullLog{}})
+	opts := samlidp.Options{URL: mustURL("https://idp.example.com"), Key: rsaKeys[0].Key, Certificate: rsaKeys[0].Cert, Store: store, Logger: nullLog{}}
+	if decode[schedKnobs](p.Knobs).CustomLoginForm {
+		// parsed anew for every run: what the requests of one run share is this run's template value
+		opts.LoginFormTemplate = template.Must(template.New("application-login-form").Parse(`<html><body><h1>Sign in</h1><p class="toast">{{.Toast}}</p>` +
+			`<form method="post" action="{{.URL}}"><input name="user"/><input type="password" name="password"/>` +
+			`<input type="hidden" name="SAMLRequest" value="{{.SAMLRequest}}"/><input type="hidden" name="RelayState" value="{{.RelayState}}"/>` +
+			`<button>Log In</button></form></body></html>`))
+		res.probe("application-supplied-login-form-template")
+	}
+	srv, err := samlidp.New(opts)
 	if err != nil {
 		panic(err)
 	}
